@@ -65,6 +65,29 @@ def falsify(ctx, case: Dict) -> bool:
                     if not E.same_value_list(h_ab.indicator(mb2.name).as_list(), alone):
                         bad = {"relation": "operation-on-other-changes-readings", "op": op}
                         break
+            if bad is None and case.get("mid") is not None:
+                # the same operations applied in the middle of the stream, candles keep arriving after them
+                for order in ((a_spec, b_spec), (b_spec, a_spec)):
+                    ms = [hx.member(s_) for s_ in order]
+                    mb_ = ms[order.index(b_spec)]
+                    ma_ = ms[order.index(a_spec)]
+                    h = hx.hexital(rows[:split], ms)
+                    h.calculate()
+                    for j, r in enumerate(rows[split:]):
+                        if j == case["mid"]:
+                            for op in ops:
+                                if op == "purge":
+                                    h.purge(ma_.name)
+                                elif op == "recalculate":
+                                    h.recalculate(ma_.name)
+                                elif op == "remove":
+                                    h.remove_indicator(ma_.name)
+                                elif op == "calculate":
+                                    h.calculate()
+                        h.append(X.mk_rows([r]))
+                    if not E.same_value_list(h.indicator(mb_.name).as_list(), alone):
+                        bad = {"relation": "operation-on-other-changes-later-readings", "ops": "+".join(sorted(set(ops)))}
+                        break
     except Exception as e:  # noqa
         bad = {"relation": "raises", "exc": type(e).__name__}
     if bad:
@@ -97,7 +120,9 @@ def run(ctx: core.Ctx) -> int:
         # after a remove the other operations on A are no-ops by name; keep remove last
         if "remove" in ops:
             ops = [o for o in ops if o != "remove"] + ["remove"]
-        cases.append({"a": a, "b": b, "rows": rows, "split": rng.choice([0, 1, n // 2, n]), "ops": ops, "target": target})
+        split = rng.choice([0, 1, n // 2, n])
+        cases.append({"a": a, "b": b, "rows": rows, "split": split, "ops": ops, "target": target,
+                      "mid": rng.randrange(0, n - split) if n - split > 0 and rng.random() < 0.7 else None})
     for c in cases:
         ctx.count("eval_falsifier")
         falsify(ctx, c)
